@@ -75,6 +75,11 @@ impl<T, E> Observer<T, E> for ObservableStreamObserver<T, E> {
       .sender
       .unbounded_send(Message::Item(Err(err)))
       .expect("failed to send error to stream");
+    // The error is the last notification: end the stream after it.
+    self
+      .sender
+      .unbounded_send(Message::Complete)
+      .expect("failed to send a complete message");
   }
 
   fn complete(self) {
